@@ -812,8 +812,31 @@ func filterUrlizetrunc(in *Value, param *Value) (*Value, *Error) {
 	return AsValue(s), nil
 }
 
+// formatsItself tells whether fmt calls a method of v to format it.
+func formatsItself(v any) bool {
+	switch v.(type) {
+	case fmt.Formatter, fmt.Stringer, error:
+		return true
+	}
+	return false
+}
+
 func filterStringformat(in *Value, param *Value) (*Value, *Error) {
-	return AsValue(fmt.Sprintf(param.String(), in.Interface())), nil
+	arg := in.Interface()
+	// A pointer to a number, string or bool (a *int field of the caller's struct) is
+	// formatted as what it points to - like {{ value }} prints it and every other filter
+	// reads it -, not as an address. Other pointers stay: fmt knows what to do with them
+	// (a pointer that brings its own formatting, a pointer to a struct).
+	if rv := in.getResolvedValue(); rv.IsValid() && in.val.Kind() == reflect.Ptr && !formatsItself(arg) {
+		switch rv.Kind() {
+		case reflect.Bool, reflect.String,
+			reflect.Int, reflect.Int8, reflect.Int16, reflect.Int32, reflect.Int64,
+			reflect.Uint, reflect.Uint8, reflect.Uint16, reflect.Uint32, reflect.Uint64, reflect.Uintptr,
+			reflect.Float32, reflect.Float64, reflect.Complex64, reflect.Complex128:
+			arg = rv.Interface()
+		}
+	}
+	return AsValue(fmt.Sprintf(param.String(), arg)), nil
 }
 
 var reStriptags = regexp.MustCompile("<[^>]*?>")
